@@ -45,10 +45,10 @@ func genStyle(t *rapid.T) x.Style {
 	s.Parens = rapid.IntRange(0, 2).Draw(t, "parens")
 	s.Space = rapid.IntRange(0, 2).Draw(t, "space")
 	s.NL = rapid.Bool().Draw(t, "nl")
-	s.Cmt = rapid.IntRange(0, 4).Draw(t, "cmt") == 0
+	s.Cmt = rapid.IntRange(0, 4).Draw(t, "cmt") == 4
 	s.Heredoc = rapid.IntRange(0, 2).Draw(t, "heredoc")
 	s.Legacy = rapid.Bool().Draw(t, "legacy")
-	s.Esc = rapid.IntRange(0, 39).Draw(t, "esc") == 0
+	s.Esc = rapid.IntRange(0, 39).Draw(t, "esc") == 39
 	s.NumSpell = rapid.Bool().Draw(t, "numspell")
 	s.Alt = rapid.Bool().Draw(t, "alt")
 	s.Seed = rapid.Uint64Range(1, 1<<62).Draw(t, "seed")
@@ -67,14 +67,14 @@ func gen(t *rapid.T, template bool) Case {
 	if c.Funcs == nil {
 		c.Funcs = []x.FuncDef{}
 	}
-	depth := rapid.IntRange(1, 5).Draw(t, "depth")
+	depth := 5 - rapid.IntRange(0, 4).Draw(t, "depth")
 	g.SetBudget(6 + 7*depth)
 	if template {
 		c.Root = g.Template(depth, true)
 	} else {
 		c.Root = g.ExprOf(g.RootType(), depth)
 	}
-	if rapid.IntRange(0, 99).Draw(t, "fault") < 35 {
+	if rapid.IntRange(0, 9).Draw(t, "fault") >= 6 {
 		c.Root, c.Fault = g.InjectFault(c.Root)
 		if c.Template && c.Root.K != x.KTmpl {
 			// the root of sub-check b stays a template
@@ -83,7 +83,7 @@ func gen(t *rapid.T, template bool) Case {
 	}
 	c.Styles = []x.Style{{}}
 	n := 1
-	if rapid.IntRange(0, 3).Draw(t, "morestyles") == 0 {
+	if rapid.IntRange(0, 3).Draw(t, "morestyles") == 3 {
 		n = 2
 	}
 	for i := 0; i < n; i++ {
@@ -141,12 +141,8 @@ func buildCtx(c Case, st x.Style) (*hcl.EvalContext, *core.Violation) {
 	return ctx, nil
 }
 
-func run(c Case, i int) (outcome, *core.Violation) {
+func run(c Case, i int, ctx *hcl.EvalContext) (outcome, *core.Violation) {
 	st := c.Styles[i]
-	ctx, v := buildCtx(c, st)
-	if v != nil {
-		return outcome{}, v
-	}
 	var o outcome
 	var expr hclsyntax.Expression
 	var pd hcl.Diagnostics
@@ -205,14 +201,21 @@ func check(c Case) *core.Violation {
 	default:
 		last.ref = "value"
 	}
+	// the function definitions are spelled with the last (random) style
+	ctx, v := buildCtx(c, c.Styles[len(c.Styles)-1])
+	if v != nil {
+		return v
+	}
 	outs := make([]outcome, len(c.Styles))
 	for i := range c.Styles {
-		o, v := run(c, i)
+		o, v := run(c, i, ctx)
 		if v != nil {
 			return v
 		}
 		outs[i] = o
 	}
+	hazard := x.StripTokenHazard(c.Root)
+	const hazardSig = "strip-marker|token-level-trim|dollar-blanks-newline-before-tilde"
 	// (1) metamorphic
 	for i := 1; i < len(outs); i++ {
 		a, b := outs[0], outs[i]
@@ -221,6 +224,9 @@ func check(c Case) *core.Violation {
 				"two printings of one tree disagree on error-ness:\n[%s] err=%v (%s)\n%s\n[%s] err=%v (%s)\n%s", a.mode, a.hasErr, a.firstE, a.src, b.mode, b.hasErr, b.firstE, b.src)
 		}
 		if !a.hasErr && !a.val.RawEquals(b.val) {
+			if hazard {
+				return core.V(hazardSig, "a `~` strip marker after a literal ending in `$`/`%%`, blanks, newline trims only the newline in heredoc/standalone form but all the whitespace in quoted form:\n[%s] %s\n%s\n[%s] %s\n%s", a.mode, show(a.val), a.src, b.mode, show(b.val), b.src)
+			}
 			return core.V("meta|value|"+kindOf(a.mode)+"~"+kindOf(b.mode),
 				"two printings of one tree evaluate differently:\n[%s] %s\n%s\n[%s] %s\n%s", a.mode, show(a.val), a.src, b.mode, show(b.val), b.src)
 		}
@@ -242,6 +248,9 @@ func check(c Case) *core.Violation {
 			return core.V("diff|unexpected-error|"+o.firstE, "the language defines the value %s but evaluation reported: %s\nsource: %s", show(ref.V), o.firstE, o.src)
 		}
 		if !x.SameValue(o.val, ref.V) {
+			if hazard {
+				return core.V(hazardSig, "a `~` strip marker after a literal ending in `$`/`%%`, blanks, newline does not strip the blanks: evaluation = %s, the language defines %s\nsource: %s", show(o.val), show(ref.V), o.src)
+			}
 			return core.V("diff|wrong-value|root="+c.Root.K+rootOp(c.Root), "evaluation = %s, the language defines %s\nsource: %s", show(o.val), show(ref.V), o.src)
 		}
 	}
